@@ -1,6 +1,7 @@
 package c09
 
 import (
+	"bytes"
 	"encoding/json"
 	"fmt"
 	"math/rand"
@@ -12,8 +13,10 @@ import (
 	"time"
 
 	"github.com/robfig/soy"
+	"github.com/robfig/soy/data"
 	"github.com/robfig/soy/parse"
 	"github.com/robfig/soy/soyhtml"
+	"github.com/robfig/soy/template"
 
 	"verif/c08"
 	"verif/core"
@@ -72,19 +75,20 @@ type ChildInput struct {
 // Mismatch is a render whose bytes or verdict are not those of the render run
 // alone; it is also the replay case.
 type Mismatch struct {
-	Kind     string      `json:"kind"`   // "forced" | "stress" | "stress-js" | "stress-compile"
-	Family   string      `json:"family"` // signature family
-	Cfg      c08.Config  `json:"cfg"`
-	Inputs   *c08.Inputs `json:"inputs"`
-	Cases    []Case      `json:"cases"`              // the renders run concurrently (goroutine g renders Cases[g-1])
-	Schedule []int       `json:"schedule,omitempty"` // forced: goroutine ids per node step
-	Actual   []int       `json:"executed,omitempty"`
-	Gor      int         `json:"goroutine"`
-	Case     Case        `json:"case"`
-	Expected Expect      `json:"expected"`
-	Observed c08.Obs     `json:"observed"`
-	Diff     *c08.Diff   `json:"sharedStateDiff,omitempty"`
-	What     string      `json:"what"`
+	Kind       string      `json:"kind"`   // "forced" | "stress" | "stress-js" | "stress-compile"
+	Family     string      `json:"family"` // signature family
+	Cfg        c08.Config  `json:"cfg"`
+	Inputs     *c08.Inputs `json:"inputs"`
+	Cases      []Case      `json:"cases"`              // the renders run concurrently (goroutine g renders Cases[g-1])
+	Schedule   []int       `json:"schedule,omitempty"` // forced: goroutine ids per node step
+	Actual     []int       `json:"executed,omitempty"`
+	Gor        int         `json:"goroutine"`
+	Case       Case        `json:"case"`
+	Expected   Expect      `json:"expected"`
+	Observed   c08.Obs     `json:"observed"`
+	Diff       *c08.Diff   `json:"sharedStateDiff,omitempty"`
+	CallerDiff *c08.Diff   `json:"callerDataDiff,omitempty"` // what changed in the data the caller shared between the renders
+	What       string      `json:"what"`
 	// Kind "solo": the program in the JSON form of the trace spec
 	Prog map[string]interface{} `json:"prog,omitempty"`
 }
@@ -493,6 +497,7 @@ func (c *child) stress() {
 			continue
 		}
 		before := c08.DigestOf(inst.SharedRoots()...)
+		callerBefore := c08.DigestOf(inst.CallerRoots()...)
 		c.out.StressRuns++
 		if ji < 2 {
 			c.out.Samples = append(c.out.Samples, map[string]interface{}{"stress": true, "cfg": j.cfg.Name, "files": j.in.Files, "goroutines": G, "rendersEach": R})
@@ -609,6 +614,7 @@ func (c *child) stress() {
 		c.out.JSWrites += writes
 		if first != nil {
 			first.Diff = c08.FirstDiff(before, c08.DigestOf(inst.SharedRoots()...))
+			first.CallerDiff = c08.FirstDiff(callerBefore, c08.DigestOf(inst.CallerRoots()...))
 			c.addMismatch(*first)
 		}
 		var all []Case
@@ -685,6 +691,7 @@ func (u *compileUnit) once() string {
 			fmt.Fprintf(&b, "%s=%q\n", k, g[k].String())
 		}
 	}
+	b.WriteString(u.sharedInputs())
 	node, err := parse.Expr("'" + u.tag + `\t` + "' + '" + `\'q\'` + "' + 'é" + `\u00e9` + u.tag + "'")
 	if err != nil {
 		b.WriteString("expr: " + err.Error())
@@ -693,6 +700,59 @@ func (u *compileUnit) once() string {
 	} else {
 		fmt.Fprintf(&b, "expr=%q\n", v.String())
 	}
+	return b.String()
+}
+
+// Construction inputs that the API takes BY REFERENCE and that every goroutine
+// of the compile stress hands to its own, otherwise independent, bundle: one
+// map of common globals, one parse pass function, one source string. The
+// harness never writes them.
+var (
+	commonGlobals = data.Map{"APP_NAME": data.String("shop"), "APP_VER": data.Int(3), "APP_TAGS": data.List{data.String("a"), data.String("b")}}
+	commonFile    = "{namespace common.lib}\n\n/** @param who */\n{template .hello}\nhello {$who} from {APP_NAME}\n{/template}\n"
+	commonPass    = func(reg template.Registry) error {
+		if len(reg.Templates) == 0 {
+			return fmt.Errorf("no templates")
+		}
+		return nil
+	}
+)
+
+func commonGlobalsText() string {
+	var keys []string
+	for k := range commonGlobals {
+		keys = append(keys, k)
+	}
+	sort.Strings(keys)
+	var b strings.Builder
+	for _, k := range keys {
+		fmt.Fprintf(&b, "%s=%s;", k, commonGlobals[k].String())
+	}
+	return b.String()
+}
+
+// sharedInputs builds a bundle from the common inputs plus globals and a file
+// of its own (every goroutine defines OWN and COLOR with its own values; odd
+// goroutines also try to redefine APP_VER, which must be rejected for them and
+// only for them), compiles it and renders: accept/reject, error text and
+// output, globals included.
+func (u *compileUnit) sharedInputs() string {
+	var b strings.Builder
+	own := data.Map{"OWN": data.String(u.tag), "COLOR": data.String("c-" + u.tag)}
+	src := "{namespace own." + u.tag + "}\n\n/** */\n{template .t}\n{APP_NAME}|{APP_VER}|{OWN}|{COLOR}|{call common.lib.hello}{param who: OWN /}{/call}\n{/template}\n"
+	bundle := soy.NewBundle().AddGlobalsMap(commonGlobals).AddGlobalsMap(own).
+		AddParsePass(commonPass).AddTemplateString("common.soy", commonFile).AddTemplateString("own_"+u.tag+".soy", src)
+	if u.tag[len(u.tag)-1]%2 == 1 {
+		bundle.AddGlobalsMap(data.Map{"APP_VER": data.Int(99)})
+	}
+	tofu, err := bundle.CompileToTofu()
+	if err != nil {
+		fmt.Fprintf(&b, "shared-inputs bundle rejected: %v\n", err)
+		return b.String()
+	}
+	var out bytes.Buffer
+	err = tofu.Render(&out, "own."+u.tag+".t", nil)
+	fmt.Fprintf(&b, "shared-inputs bundle: err=%v %q\n", err != nil, out.String())
 	return b.String()
 }
 
@@ -708,6 +768,7 @@ func (c *child) compileStress(G, reps int) {
 		in.Files = append(in.Files, litFile(tag))
 		units[g] = &compileUnit{tag: tag, in: in, op: ops[0]}
 	}
+	commonBefore := commonGlobalsText()
 	var wg sync.WaitGroup
 	for g := 0; g < G; g++ {
 		wg.Add(1)
@@ -738,6 +799,11 @@ func (c *child) compileStress(G, reps int) {
 				Expected: Expect{"ok", solo}, Observed: c08.Obs{Out: got},
 				What: fmt.Sprintf("%d goroutines compiling and using independent bundles (string literals with escapes, globals, expressions): goroutine %d got %q, the same work alone gives %q", G, g+1, trunc(got, 400), trunc(solo, 400))})
 		}
+	}
+	if got := commonGlobalsText(); got != commonBefore {
+		c.addMismatch(Mismatch{Kind: "stress-compile", Family: "concurrent-bytes", Cfg: c08.Configs[0], Inputs: units[0].in, Gor: 0,
+			Expected: Expect{"ok", commonBefore}, Observed: c08.Obs{Out: got},
+			What: fmt.Sprintf("the map of common globals that every bundle was given (AddGlobalsMap) was changed by the bundles: %q -> %q", commonBefore, got)})
 	}
 	c.out.Distinct = append(c.out.Distinct, "compile-stress")
 	if len(c.out.Samples) < 4 {
